@@ -519,9 +519,12 @@ fn build(r: &mut StdRng, n: &str, comps: &[Value], valid: bool) -> Built {
                     }
                     // a content type dropshot does not know at all
                     "unsupported_content_type" => {
-                        ctype = Some(["text/plain", "application/xml", "application/jsonx", "image/png", "*/*", "application/json-patch+json",
+                        ctype = Some(if r.gen_bool(0.5) {
+                            ["text/plain", "application/xml", "application/jsonx", "image/png", "*/*", "application/json-patch+json"][r.gen_range(0..6)].into()
+                        } else {
                             // header values with bytes beyond ASCII are legal on the wire (obs-text) and name no content type dropshot knows
-                            "text/plain; name=caf\u{e9}", "application/j\u{f8}son", "\u{65e5}\u{672c}/json"][r.gen_range(0..9)].into());
+                            ["text/plain; name=caf\u{e9}", "application/j\u{f8}son", "\u{65e5}\u{672c}/json", "application/json; charset=\u{fc}tf-8"][r.gen_range(0..4)].into()
+                        });
                         good
                     }
                     "null_body" => "null".to_string(),
